@@ -1191,6 +1191,15 @@ class Interp:
             r0 = H.peel_ref(e["recv"])
             if r0.get("k") == "local" and isinstance(env.get(r0["name"]), str):
                 env[r0["name"]] = env[r0["name"]] + txt      # a local String buffer
+            elif r0.get("k") == "local" and isinstance(env.get(r0["name"]), FieldRef) and isinstance(env[r0["name"]].get(), str):
+                env[r0["name"]].set(env[r0["name"]].get() + txt)
+            elif r0.get("k") == "field":
+                try:
+                    b0 = self.ev(r0["base"], env, depth)
+                except Unsupported:
+                    b0 = None
+                if isinstance(b0, dict) and isinstance(b0.get(r0["name"]), str):
+                    b0[r0["name"]] = b0[r0["name"]] + txt      # a String field of a struct (`self.string`)
             return ("Ok", ())
         if e.get("k") == "mcall" and name in ("len", "is_empty") and not e.get("args"):
             v = self.ev(e["recv"], env, depth)
